@@ -107,8 +107,22 @@ FOREIGN = 65534
 FILE_MODES = {"E": (0o755, None), "N": (0o644, None), "FO": (0o700, FOREIGN), "FG": (0o070, FOREIGN), "OX": (0o655, None)}
 NOT_FOR_US = ("FO", "FG", "OX")
 SEL_VIEWS = ("locate-executable", "cache-locate", "spec")
-BOOL_VIEWS = ("cache-contains", "cache-iter")
-CACHE_VIEWS = ("cache-locate", "cache-contains", "cache-iter")
+BOOL_VIEWS = ("cache-contains", "cache-iter", "completion-listing")
+CACHE_VIEWS = ("cache-locate", "cache-contains", "cache-iter", "completion-listing")
+_VT = [1000.0]  # virtual time.monotonic() of the xonsh modules that look at it: frozen within a history
+
+
+class _TimeShim:
+    """`time` as a xonsh module sees it: real, except monotonic() (owned: results must not depend on machine speed)."""
+
+    def __init__(self, real):
+        self._real = real
+
+    def __getattr__(self, name):
+        return getattr(self._real, name)
+
+    def monotonic(self):
+        return _VT[0]
 
 D1, D2, D3, W = "{R}/d1", "{R}/d2", "{R}/d3", "{R}/w"
 PATHS = [
@@ -240,6 +254,8 @@ def evkind(ev):
         return f"during-scan({evkind(ev[1])})"
     if k == "scan-fault":
         return "scan-fault"
+    if k == "backdated":
+        return f"backdated({evkind(ev[1])})"
     return {"path=": "path-assign", "path.append": "path-append", "path.insert0": "path-insert", "path.remove": "path-remove"}[k]
 
 
@@ -262,7 +278,11 @@ class Raised(str):
 class Harness:
     def __init__(self, level="mid"):
         self.level = level
-        self.cfg = ALPHA[level]
+        self.cfg = ALPHA[level.split("+")[0]]
+        # which view is the lookup every state gets (it is the FIRST view probed after an event):
+        # `name in cache`, or - "+completion" - the completion listing, which must refresh by itself
+        self.probe = "completion" if level.endswith("+completion") else "contains"
+        self.back = 0
         self.root = os.path.realpath(common.scratch_dir("c08"))
         self.R = os.path.join(self.root, "R")
         # children (the /bin/sh reference, spawned commands) must not get the DAC capabilities back at
@@ -362,6 +382,15 @@ class Harness:
             executables_in._c08_seam = True
             ccmod.executables_in = executables_in
             ccmod.os = _OsShim(ccmod.os)  # os.scandir as the cache module sees it (transient scan faults)
+            import types
+
+            import xonsh.completers.commands as compmod
+
+            for mod in (ccmod, compmod):
+                if isinstance(getattr(mod, "time", None), types.ModuleType):
+                    mod.time = _TimeShim(mod.time)
+                if callable(getattr(mod, "monotonic", None)):
+                    mod.monotonic = lambda: _VT[0]
         _ACTIVE = self
 
     def _count_scan(self, fired, fault=False):
@@ -419,6 +448,8 @@ class Harness:
         self._stash = None
         self._armed = None
         self._fault = None
+        self.back = 0
+        _VT[0] += 10.0  # a new history starts long after the previous one; inside a history time stands still
         self._lookup()
 
     def _settle(self, ev):
@@ -440,9 +471,24 @@ class Harness:
     def _lookup(self):
         """The lookup every state gets (all cache views start with the same update_cache())."""
         try:
+            if self.probe == "completion":
+                return self._completion_names()
             return "x" in self.cc()
         except Exception:  # noqa: BLE001 - the checked step reports it
             return None
+
+    def _completion_names(self, cc=None):
+        """The completion listing for an empty prefix, through the real completer."""
+        from xonsh.completers.commands import complete_command
+        from xonsh.parsers.completion_context import CommandContext
+
+        live = self.xsh.commands_cache
+        if cc is not None:
+            self.xsh.commands_cache = cc
+        try:
+            return {str(c) for c in complete_command(CommandContext(args=(), arg_index=0, prefix=""))}
+        finally:
+            self.xsh.commands_cache = live
 
     # -------------------------------------------------------------- events
     def _do_fs(self, ev):
@@ -487,6 +533,12 @@ class Harness:
                 self._do_fs(ev[1])
             else:
                 self._armed = ev[1]
+        elif k == "backdated":
+            # the content changes and the directory ends up with an OLDER mtime than any seen before
+            # (a restore that preserves directory times, a rollback by rename, a clock stepped back)
+            self._do_fs(ev[1])
+            self.back += 1
+            os.utime(self.p(ev[1][1]), (BASE_T - self.back, BASE_T - self.back))
         elif k == "scan-fault":
             # the directory changed (so the next refresh re-lists it) and that one scan fails transiently
             self._touch(ev[1])
@@ -592,6 +644,9 @@ class Harness:
                     out.append(["during-scan", ["chmod", d, n, "+x"]])
                 elif cur == "E":
                     out.append(["during-scan", ["chmod", d, n, "-x"]])
+        for d, n in cfg.get("scan", ()):
+            if self._dirkey(self.p(d)) in on_path:
+                out.append(["backdated", ["mk", d, n, "E"] if fs[d].get(n) is None else ["rm", d, n]])
         for d in cfg.get("fault", ()):
             if self._dirkey(self.p(d)) in on_path:
                 out.append(["scan-fault", d])
@@ -757,6 +812,8 @@ class Harness:
             return name in cc
         if view == "cache-iter":
             return name in set(iter(cc))
+        if view == "completion-listing":
+            return name in self._completion_names(cc if cc is not self.cc() else None)
         if view == "spec":
             try:
                 with contextlib.redirect_stderr(io.StringIO()):
@@ -794,16 +851,29 @@ class Harness:
 
     def mismatches(self):
         """All disagreements between a view and the reference on the current state."""
+        # the completion listing is probed FIRST (before any view that refreshes the shared table)
+        try:
+            comp = self._completion_names()
+        except Exception as e:  # noqa: BLE001
+            comp = Raised(type(e).__name__)
         amb = self._crosscheck()
         out = {}
         for name in LOOKUPS:
             if amb[name]:
                 continue
             exp = self.expected(name)
+            iter_raw = None
             for view in SEL_VIEWS + BOOL_VIEWS:
-                if view == "cache-iter" and "/" in name:
+                if view in ("cache-iter", "completion-listing") and "/" in name:
                     continue
-                raw = self.view(view, name)
+                if view == "completion-listing":
+                    raw = comp if isinstance(comp, Raised) else (name in comp)
+                    if raw == iter_raw:
+                        continue  # the completer shows what iteration of the cache shows: judged there
+                else:
+                    raw = self.view(view, name)
+                if view == "cache-iter":
+                    iter_raw = raw
                 c = self._cmp(view, name, raw, exp)
                 if c is not None:
                     out[(view, name)] = {"kind": c[0], "obs": c[1], "sel": c[2], "exp": exp, "sig": common.jdump([c[0], c[1] if c[2] is None else c[2]["entry"] + ":" + str(c[2]["kind"]), exp and exp["entry"]])}
@@ -1133,10 +1203,10 @@ def run(ctx):
     global _MEMO_DIR
     _MEMO_DIR = common.scratch_dir("c08memo")
     if ctx.thorough:
-        plan = [("mid", 3, 4), ("full", 2, 3), ("core", 5, 5)]
+        plan = [("mid", 3, 4), ("full", 2, 3), ("core", 5, 5), ("mid+completion", 2, 3)]
         deadline = 720
     else:
-        plan = [("quick", 3, 3)]
+        plan = [("quick", 3, 3), ("quick+completion", 2, 2)]
         deadline = 50
     # schedule part first (a refresh in one thread while another thread queries the cache, pysched):
     # every execution starts with a gc.collect(), which must not have to walk the BFS results
